@@ -151,7 +151,7 @@ def layoutOk (f : Frame) : Bool :=
   && decide (daEnd ≤ f.ppOff)
   && f.ppOff + f.ppSize == f.finalSize
   && (!f.alignedVecSR || f.xOff % f.srSize 1 == 0)
-  && (if f.usesStack then (f.finalSize + f.arch.retSize) % f.finalAlign == 0 else f.finalSize == f.ppSize)
+  && (if f.usesStack || f.arch.retSize == 0 then (f.finalSize + f.arch.retSize) % f.finalAlign == 0 else f.finalSize == f.ppSize)
   && (f.hasDA || f.saOffSp == f.finalSize + f.arch.retSize)
   && decide (f.callAlign ≤ f.finalAlign) && decide (f.localAlign ≤ f.finalAlign)
 
